@@ -8,8 +8,10 @@
 (*   fresh    the same call evaluated in processes that had done nothing   *)
 (*            else (under other PYTHONHASHSEEDs),                          *)
 (*   contig   the fresh result of the same call with contiguous arguments, *)
-(*   args     bit-for-bit digests of every array / list argument before    *)
-(*            and after, and whether the result shares memory with it,     *)
+(*   args     bit-for-bit digests of every array / list / tuple argument   *)
+(*            (the caller's own objects) before and after, whether the     *)
+(*            result shares memory with it, and (integrators) the digest   *)
+(*            after the result was rewritten in place by the caller,       *)
 (*   tab      the lookups (hit / miss) and insertions the call made in     *)
 (*            each memo table (observed by a logging dict), in the key     *)
 (*            vocabulary of Memo.tla,                                      *)
@@ -58,7 +60,9 @@ FValue(r) ==
 FArgs(r) ==
     F("ArgumentsUnchanged", \A j \in 1..Len(r.args) :
           (r.base \in DocumentedInPlace /\ r.args[j].name = "phi") \/ r.args[j].before = r.args[j].after) \cup
-    (IF IsIntegrator(r.base) THEN F("ResultIsFresh", \A j \in 1..Len(r.args) : ~r.args[j].shares) ELSE {})
+    \* an integrator's result shares no memory with any argument, and after the follow-up (every entry of the result
+    \* rewritten in place by the caller) every argument still has the digest it had when the call returned
+    (IF IsIntegrator(r.base) THEN F("ResultIsFresh", \A j \in 1..Len(r.args) : ~r.args[j].shares /\ r.args[j].afterw = r.args[j].after) ELSE {})
 
 \* the state of the machine before the call: a history starts (k = 1) from a process that has only imported dadi
 S0 == [tabs |-> [t \in Tables |-> {}], counter |-> 0, theta |-> {}, dlog |-> [len |-> 0, owner |-> "none", names |-> "raw", by |-> ""]]
